@@ -224,12 +224,14 @@ def rule_header(rep: Report, rid="C05.header", snapshot=False) -> None:
             if g[0] == "call" and g[1] in ("re.match", "re.fullmatch", "re.search") and len(g[2]) == 2 and is_const(g[2][0]) and g[2][1] == trimmed:
                 match = g
         pat = match[2][0][1] if match else None
-        flags = dict(match[3]).get("flags") if match else None
-        # re.match anchors at the start; the pattern's own ^...$ anchors make search/fullmatch equivalent
-        ok = pat is not None and flags is None and regexnf.same(pat, 0, want)
+        from .line_rules import _re_flags
+        import re as _re_mod
+        fl = _re_flags(match[3]) if match else 0
+        # as a test: re.match anchors at the start, fullmatch at both ends; VERBOSE only changes how the pattern is written
+        ok = pat is not None and not (fl & ~(_re_mod.VERBOSE | _re_mod.UNICODE)) and regexnf.same_test(pat, fl, match[1].split(".", 1)[1], want, 0, "search")
         rep.ob(rid, "a language header is recognised on the left-trimmed line by the pattern: blanks, '#', blanks, 'language', blanks, ':', blanks, "
                     "one name of letters/'-'/'_', blanks, end", ok, **mr._kw(m, sn[2]),
-               expected=regexnf.describe(want), found=(regexnf.describe(pat) if pat is not None else [(fmt(c, I), p) for c, p in gs]))
+               expected=regexnf.describe(want), found=(regexnf.describe(pat, fl) if pat is not None else [(fmt(c, I), p) for c, p in gs]))
         rep.eq(rid, "the Language token's text is the captured name", fmt(("call", ".group", (match, const(1)), ()), I) if match else "group(1) of the header match",
                fmt(sn[1].get("text"), I) if sn[1].get("text") else None, **mr._kw(m, sn[2]))
     # order: sink (sets the column) precedes the dialect switch, which gets the token location
